@@ -18,15 +18,28 @@ import storeutil  # noqa: E402
 
 MANIFEST = {
     "text": "Refinement theorems (induction over every add history) of the Gallina models of MemoryStore and "
-            "FileSystemStore to a plain list: get = greatest modified, all_versions = the distinct versions, query = "
-            "filter; explicit statement of the one documented difference (re-adding an existing (id, modified)); "
-            "no silent loss; save/load. Text-ordered `modified` of dictionary-kept content is a refuted variant.",
-    "design_ref": "DESIGN.md 6/C11",
-    "note": "Trusted: Coq kernel + vm_compute; the hand-written model is tied to the source by the correspondence run "
-            "(same histories through the real stores and through the model, every run); per-object filter evaluation "
-            "is abstract (property C12); the file round trip of one object is taken as identity (property C01); OS "
-            "directory semantics are not modelled. No axioms.",
-    "technique": "Coq proof over a hand-written executable model + per-run correspondence with the implementation",
+            "FileSystemStore to a plain list (Spec/StoreSpec.v `refines`): get = an added object of that id with the "
+            "greatest modified, all_versions = every added version once, query = filter of one copy per (id, version) "
+            "(filesystem: including the type/id search optimiser, as a permutation); stores_agree on histories without "
+            "re-additions; the one documented difference (re-adding an existing (id, modified)); no silent loss; "
+            "save/load; every input form flattens to the sequence of its objects. Domain predicate: `clean` (modified/"
+            "created instants or absent), `uniform` (an id is always or never versioned), filesystem `fs_ok` (id prefix "
+            "= type, versioned ids UUID-shaped). The same theorems for the instance denoted by the source text "
+            "(Props/C11Src.v: translators/tr_stores.py -> Gen/StoreFacts.v, fail closed) with kernel-evaluated refutations "
+            "of every recognised alternative. Text-ordered `modified` of dictionary-kept content is a refuted variant "
+            "(known finding); naive datetimes and mixed versioned/unversioned ids are refuted outside the domain.",
+    "design_ref": "DESIGN.md 6/C11; design_notes/C11-C18.md",
+    "note": "Trusted: Coq kernel + vm_compute (coqchk in the thorough tier); the hand-written model coq/Model/Store.v, "
+            "tied to the source by (a) the per-run correspondence (same histories through the real stores and the model), "
+            "(b) the source-text translator for 18 named choices, (c) behaviour probes that must agree with the text. "
+            "Oracle-only (not theorem): nothing is claimed for content outside the domain except the refutations. "
+            "Assumed: per-object filter evaluation is an abstract boolean in Props/C11.v (made concrete in the OPTIONAL "
+            "bridge Props/C11BridgeC12.v, which imports property C12's files); the file round trip of one object "
+            "preserves the store view (OPTIONAL bridge Props/C11BridgeC01.v derives it from property C01's "
+            "roundtrip_equal_partial for the classes C01 covers; Bundle not yet); file names injective in the instant; OS "
+            "directory semantics not modelled. Optional bridges are built separately: if another builder's file or "
+            "statement changes they are reported as a note and not claimed. No axioms.",
+    "technique": "Coq proof over a hand-written executable model + source-text translator + per-run correspondence with the implementation",
 }
 
 # --------------------------------------------------------------------------
@@ -330,6 +343,26 @@ def source_step(run, src_props):
     else:
         run.coverage["obligations"] += len(common.theorems_in(src_props))
     return facts
+
+
+def optional_bridge(run, props_file, dependency):
+    """Build a Props file whose theorems import another builder's files.  Call inside common.Lock().
+    When it builds its theorems are counted as obligations (discharged); when it does not -- a file or a
+    statement of the other builder changed -- nothing from it is claimed and the check records a note."""
+    res = common.build_props(props_file)
+    br = run.coverage.setdefault("optional_bridges", {})
+    if res["ok"] and not res["bad_axioms"]:
+        run.coverage["obligations"] += res["obligations"]
+        run.coverage["discharged"] += res["discharged"]
+        run.coverage.setdefault("print_assumptions", {}).update(
+            {k: (v or "Closed under the global context") for k, v in res["assumptions"].items()})
+        br[props_file] = {"built": True, "theorems": res["theorems"], "depends_on": dependency}
+    else:
+        fa = res.get("failed_at")
+        br[props_file] = {"built": False, "depends_on": dependency, "failed_at": list(fa) if fa else None,
+                          "log_tail": res["log_tail"][-600:]}
+        run.notes.append("optional bridge %s (depends on %s) did not build; its theorems are not claimed in this run"
+                         % (props_file, dependency))
 
 
 def compare_text_and_probe(run, facts, probed):
@@ -944,6 +977,8 @@ def check(run):
         if not quick and res["ok"]:
             run_coqchk(run, "V.Props.C11")
         facts = source_step(run, "Props/C11Src.v")
+        optional_bridge(run, "Props/C11BridgeC12.v", "property C12: Model/Filters.v, Proofs/FiltersBasics.v, FiltersOpt.v, FiltersStoreLink.v")
+        optional_bridge(run, "Props/C11BridgeC01.v", "property C01: Model/Schema.v, Proofs/C01Roundtrip.v and what it imports")
     probe = common.run_impl("c11_impl", [{"kind": "probe"}], procs=1)[0]
     NAIVE_KEPT[0] = bool(probe.get("naive_kept", True))
     run.coverage["naive_datetime_kept"] = NAIVE_KEPT[0]
